@@ -162,7 +162,7 @@ PLAN = {
         contract_sets=["charset"],
         verus=[],
         functions=[],
-        assumptions=[MAPS_ASSUMPTION, FMT_ASSUMPTION, SORT_ASSUMPTION, TEXT_ASSUMPTION, "'no reachable panic' is CBMC's default obligation in EVERY harness of every property (panic!, unwrap, index, arithmetic overflow, unreachable); the harnesses listed here sweep the Result-returning entry points over invalid arguments of bounded size, as the property itself states", "ProtobufEncoder::encode is covered by C13's harness, not here; remove()/get_metric_with() map forms are in the thorough tier (c05_map_form_errors)"],
+        assumptions=[MAPS_ASSUMPTION, FMT_ASSUMPTION, SORT_ASSUMPTION, TEXT_ASSUMPTION, "'no reachable panic' is CBMC's default obligation in EVERY harness of every property (panic!, unwrap, index, arithmetic overflow, unreachable); the harnesses listed here sweep the Result-returning entry points over invalid arguments of bounded size, as the property itself states", "ProtobufEncoder::encode is covered by C13's harness, not here; remove()/get_metric_with() map forms are not under a reliable harness (tier off, see kani/vec_c05.rs)"],
     ),
     "C18": dict(
         title="A timer records its duration exactly once, or never when discarded",
